@@ -165,9 +165,13 @@ pub fn run(rng: &mut Rng, count: usize, thorough: bool, out: &mut Out) {
         out.case("store");
         out.inp(&format!("init {}", join(init.iter(), " ")));
         out.inp(&format!("universe {}", join(universe.iter(), " ")));
-        let mut af = AAFramework::new_with_argument_set(ArgumentSet::new_with_labels(&init));
-        for l in observe(&af, &universe) {
-            out.out(&l);
+        let mut af = match guarded(|| AAFramework::new_with_argument_set(ArgumentSet::new_with_labels(&init))) {
+            Ok(af) => af,
+            Err(_) => { out.out("obs panic"); out.end(); continue; }
+        };
+        match guarded(|| observe(&af, &universe)) {
+            Ok(ls) => { for l in ls { out.out(&l); } }
+            Err(_) => { out.out("obs panic"); out.end(); continue; }
         }
         for _ in 0..len {
             let op = match planned.pop_front() {
